@@ -1,16 +1,103 @@
 /-
-  spmodel — extension slot F of the line protocol (ops of one model extension;
-  chained from Driver/Ext.lean).
+  spmodel — extension slot F of the line protocol: the model's OWN typed
+  decoding of message bytes (Model/Codec.lean = go-codec's decoding into the
+  saltpack packet types).
+
+    codec.list <enc|signcrypt|sig> <hex>  →  ok <hdr> <hf> <items> <tail>
+    codec.list det <hex>                  →  ok <hdr> <hf> <E|R|S:sig>
+  in exactly the token format of `listingTokens` (harness/cmd/corr/packets.go,
+  from the hook `VerifListPackets`), or `unmodelled <why>`.
 -/
 import Driver.Util
+import Saltpack.Model.Codec
 
 open Saltpack
 
 namespace DriverExtF
 open Driver
 
+def hexOrTilde (b : Option Bytes) : String :=
+  match b with
+  | none => "~"
+  | some x => if x.isEmpty then "~" else toHex x
+
+def showHdr {η : Type} : HeaderRead η → String
+  | .unreadable => "U"
+  | .undecodable hb => "X:" ++ toHex hb
+  | .ok hb _ => "H:" ++ toHex hb
+
+def showEncHF (h : EncHeader) : String :=
+  let rcs := if h.receivers.isEmpty then "-"
+    else "|".intercalate (h.receivers.map (fun r => hexOrTilde r.kid ++ "/" ++ toHex r.box))
+  s!"{toHex h.formatName};{h.version.major};{h.version.minor};{h.typ};{toHex h.ephemeral};{toHex h.senderSecretbox};{rcs}"
+
+def showSigHF (h : SigHeader) : String :=
+  s!"{toHex h.formatName};{h.version.major};{h.version.minor};{h.typ};{toHex h.senderPublic};{toHex h.nonce}"
+
+def showHF {η : Type} (f : η → String) : HeaderRead η → String
+  | .ok _ h => f h
+  | _ => "-"
+
+def flag (b : Bool) : String := if b then "1" else "0"
+
+def showItems {β : Type} (f : β → String) (l : List (Option β)) : String :=
+  if l.isEmpty then "-" else ",".intercalate (l.map (fun o => match o with | none => "N" | some x => f x))
+
+def showTail : Tail → String
+  | .eof => "E"
+  | .err _ => "R"
+
+def majorOf {η : Type} (f : η → Int) : HeaderRead η → Int
+  | .ok _ h => f h
+  | _ => 0
+
+def showEncItem (major : Int) (b : EncBlock) : String :=
+  let fin := if major = 1 then b.ct.length == 16 else b.final
+  let a := if b.auths.isEmpty then "-" else ".".intercalate (b.auths.map toHex)
+  s!"{flag fin}/{a}/{toHex b.ct}"
+
+def showSigItem (major : Int) (b : SigBlock) : String :=
+  let fin := if major = 1 then b.chunk.isEmpty else b.final
+  s!"{flag fin}/{toHex b.sig}/{toHex b.chunk}"
+
+def showScItem (b : SigncryptBlock) : String := s!"{flag b.final}/{toHex b.ct}"
+
+def list (mode : String) (msg : Bytes) : Option String :=
+  match mode with
+  | "enc" =>
+    match Codec.splitEnc msg with
+    | .error w => some s!"unmodelled {w.replace " " "_"}"
+    | .ok (hr, ps) =>
+      let m := majorOf (fun h : EncHeader => h.version.major) hr
+      some s!"ok {showHdr hr} {showHF showEncHF hr} {showItems (showEncItem m) ps.items} {showTail ps.tail}"
+  | "signcrypt" =>
+    match Codec.splitSigncrypt msg with
+    | .error w => some s!"unmodelled {w.replace " " "_"}"
+    | .ok (hr, ps) =>
+      some s!"ok {showHdr hr} {showHF showEncHF hr} {showItems showScItem ps.items} {showTail ps.tail}"
+  | "sig" =>
+    match Codec.splitSig msg with
+    | .error w => some s!"unmodelled {w.replace " " "_"}"
+    | .ok (hr, ps) =>
+      let m := majorOf (fun h : SigHeader => h.version.major) hr
+      some s!"ok {showHdr hr} {showHF showSigHF hr} {showItems (showSigItem m) ps.items} {showTail ps.tail}"
+  | "det" =>
+    match Codec.splitDetached msg with
+    | .error w => some s!"unmodelled {w.replace " " "_"}"
+    | .ok (hr, sg) =>
+      let s := match sg with
+        | .sig x => "S:" ++ toHex x
+        | .eof => "E"
+        | .err => "R"
+      some s!"ok {showHdr hr} {showHF showSigHF hr} {s}"
+  | _ => none
+
 def handle (toks : List String) : Option String :=
   match toks with
+  | ["codec.list", mode, hex] =>
+    match ofHex hex with
+    | some msg => list mode msg
+    | none => none
   | _ => none
 
 end DriverExtF
